@@ -171,6 +171,11 @@ def run(ctx):
         ctx.inst("C11.R3", op, ok, "pre-match arm returns %s" % [S.show(r) for r in rets], H.loc(a["body"]) if a else None)
     # and the broadcasting copies do not handle them (unreachable! / absent)
     # ---------------- R4 length check first
+    ctx.rule("C11.R6", "the scalar primitives behind == != < <= > >= are the IEEE / std ones: Value::equals uses `==` and Value::compare uses partial_cmp on numbers, booleans and strings (so -0 == 0, NaN is unordered, strings compare by code point)", floor=6)
+    from rules import c12
+    S_T, S_I = S.TEMPLATES, S.INLINE
+    c12.scalar_primitives(ctx, "C11.R6", core)
+    S.TEMPLATES, S.INLINE = S_T, S_I
     ctx.rule("C11.R4", "in the list-list copy the `len() != len()` test with error exit is the first thing that happens: no value is produced and no element is read before it", floor=1)
     blk = H.strip(C.arm_ll["body"])
     ok, why = False, "list-list arm is not a block"
